@@ -8,6 +8,8 @@ package xsub
 //@   immutable: p s
 //@
 //@ struct socket
+//@   close_token closeQ when closed
+//@   close_token sizeQ
 //@   lock Mutex level 20
 //@   guarded_by Mutex: closed recvQLen recvExpire recvQ sizeQ
 //@   immutable: closeQ
